@@ -8,6 +8,10 @@ import (
 
 /* C10 — tensors behave as immutable values decoupled from caller-owned slices. */
 
+// c10Only: the kinds of location C10 speaks about (shape, elements, tracking state); a private cache
+// field is not covered by C10 (it is by C20, where it would be a shared write).
+const c10Only = "only=CPUTensor.data,CPUTensor.dims,CPUTensor.gctx,GradContext.tracked,GradContext.bpdirty,GradContext.gradient,GradContext.backEdges,elem,Range.From,Range.To"
+
 type c10State struct {
 	t              T
 	dims           []int
@@ -51,15 +55,15 @@ func H_C10_frame() {
 		vrt.FootprintBegin(xs[0], xs[1], xs[2])
 	}
 	y, err := c08Apply(op, xs)
-	writes := vrt.FootprintEnd("")
+	writes := vrt.FootprintEnd(c10Only)
 	if err != nil || y == nil {
 		vrt.Assert("operation accepted", false)
 		return
 	}
-	vrt.Assert(op+": writes to no pre-existing object", writes == 0)
+	vrt.Assert(op+": writes to no pre-existing tensor's shape, elements or tracking state", writes == 0)
 	vrt.FootprintBegin(xs[0])
 	scalarAccessors(xs[0])
-	vrt.Assert("value-returning methods (reductions, NElems, Shape, At, Equals, ...) write to no pre-existing object", vrt.FootprintEnd("") == 0)
+	vrt.Assert("value-returning methods (reductions, NElems, Shape, At, Equals, ...) write to no pre-existing tensor's shape, elements or tracking state", vrt.FootprintEnd(c10Only) == 0)
 	for i := range xs {
 		c10Same(op+" operand", st[i], false)
 	}
@@ -84,7 +88,7 @@ func H_C10_backprop() {
 	sa, sb, sc, sab, sy := c10Capture(a), c10Capture(b), c10Capture(c), c10Capture(ab), c10Capture(y)
 	vrt.FootprintBegin(a, b, c, ab, y)
 	berr := tensor.BackPropagate(y)
-	w := vrt.FootprintEnd("GradContext.gradient,GradContext.bpdirty")
+	w := vrt.FootprintEnd("allow=GradContext.gradient,GradContext.bpdirty;" + c10Only)
 	vrt.Assert("BackPropagate succeeds", berr == nil)
 	vrt.Assert("BackPropagate writes only gradients and spent flags", w == 0)
 	c10Same("BackPropagate: leaf a", sa, true)
@@ -99,7 +103,7 @@ func H_C10_backprop() {
 	opt := optimizers.NewSGD(&optimizers.SGDConfig{LearningRate: vrt.Float("lr")})
 	vrt.FootprintBegin(a, b, c, ab, y)
 	uerr := opt.Update(&ptr)
-	w = vrt.FootprintEnd("Tensor")
+	w = vrt.FootprintEnd("allow=Tensor;" + c10Only)
 	vrt.Assert("Update succeeds", uerr == nil)
 	vrt.Assert("Update writes only the pointee", w == 0)
 	c10Same("Update: previous tensor", sa, false)
@@ -108,7 +112,7 @@ func H_C10_backprop() {
 	sb = c10Capture(b)
 	vrt.FootprintBegin(a, b, c, ab, y)
 	a.ResetGradContext(vrt.Bool("rt"))
-	w = vrt.FootprintEnd("CPUTensor.gctx")
+	w = vrt.FootprintEnd("allow=CPUTensor.gctx;" + c10Only)
 	vrt.Assert("ResetGradContext writes only the receiver's context", w == 0)
 	checkTensor("ResetGradContext keeps shape and elements", a, sa.dims, sa.elems)
 	c10Same("ResetGradContext: other tensor", sb, false)
